@@ -511,7 +511,7 @@ def _mode_part(pid, pidx, d, voices, pickup, fifths, with_meta=True, extra_bar=F
 
 
 # structure: nested lists; an int n = a part with voices numbered per VOICES[n]
-VOICE_SETS = {1: [1], 2: [1, 2], 3: [2, 1, 3], 0: [None], 5: [5], 9: []}
+VOICE_SETS = {1: [1], 2: [1, 2], 3: [2, 1, 3], 0: [None], 5: [5], 9: [], 7: [None, 1], 8: [2, 0, 1]}
 STRUCTURES = [
     ("1p2v", [2]),
     ("1p3v", [3]),
@@ -526,6 +526,9 @@ STRUCTURES = [
     ("3p2v", [2, 2, 2]),
     ("p+tacet+p", [1, 9, 2]),
     ("g(tacet,p)+p", [[9, 1], 1]),
+    # parts in which notes without a voice number (None, or 0) stand next to numbered voices
+    ("1pNone+v1", [7]),
+    ("g(pNone+v1,p)+p0v", [[7, 1], 8]),
 ]
 DIV_PATTERNS = [[4, 6, 1, 12], [6, 4, 12, 2], [1, 12, 3, 2], [2, 3, 4, 1], [2, 2, 2, 2]]
 DIV_PATTERNS_MORE = [[3, 4, 6, 1], [12, 6, 4, 3], [24, 1, 2, 3], [1, 1, 1, 1], [5, 2, 7, 1], [8, 12, 1, 6]]
@@ -589,6 +592,107 @@ def gen_touch(ds=(1, 6)):
                 objs += [note("m0", 0, d, 60, 1), grace("g1", d, 60, 1, "m1"), note("m1", d, 2 * d, 60, 1)]
             objs += [note("z", 3 * d, 4 * d, 70, 1)]
             yield dict(score={"parts": [part("P1", [(0, d)], objs)]}, tag="grace d=%d variant=%d" % (d, variant))
+
+
+VOICEMIX_UNVOICED = (None, 0)
+
+
+def same_channel_overlap(model, mode):
+    """True if two notes of equal pitch overlap (positive common duration) within one track/channel of the
+    documented table of `mode`: such a (score, mode) pair is outside the quantifier of the statement"""
+    seen = {}
+    for pm in model.parts:
+        for s, e, pitch, voice in pm.chains():
+            key = model.label(mode, pm, voice) + (pitch,)
+            a, b = pm.Q(s) + pm.q0, pm.Q(e) + pm.q0
+            for (a2, b2) in seen.get(key, ()):
+                if max(a, a2) < min(b, b2):
+                    return True
+            seen.setdefault(key, []).append((a, b))
+    return False
+
+
+def gen_voicemix(unvoiced=VOICEMIX_UNVOICED, ds=(6, 1)):
+    """three notes of ONE pitch, the first two overlapping, the last two touching, assigned in every way to
+    the homes (part 1 no voice number, part 1 voice 1, part 1 voice 2, part 2 no voice number, part 2 voice 1);
+    'no voice number' is None or 0 (never both in one score).  Assignments that put the two overlapping notes
+    into the same (part, voice) are outside the quantifier for every mode and are not generated; the remaining
+    modes are filtered per score with same_channel_overlap.  Divisions cycled over `ds` by case index."""
+    i = 0
+    for u0 in unvoiced:
+        homes = [(0, u0), (0, 1), (0, 2), (1, u0), (1, 1)]
+        for assign in product(range(len(homes)), repeat=3):
+            if assign[0] == assign[1]:
+                continue
+            d = ds[i % len(ds)]
+            i += 1
+            u = 1 if d < 3 else d // 3
+            iv = [(0, 2 * u), (u, 3 * u), (3 * u, 4 * u)]
+            used_parts = sorted({homes[a][0] for a in assign})
+            pobjs = {pi: [] for pi in used_parts}
+            for j, a in enumerate(assign):
+                pi, v = homes[a]
+                pobjs[pi].append(note("t%d" % j, iv[j][0], iv[j][1], 60, v))
+            parts = []
+            for pi in used_parts:
+                objs = [ts(0, 4, 4), measure(1, 0, 4 * d)]
+                # an anchor of another pitch in a voice of its own: every part starts at 0 and ends at the same point
+                objs += [note("x%d" % pi, 0, 4 * u, 72 + pi, 3)]
+                objs += pobjs[pi]
+                parts.append(part("P%d" % (pi + 1), [(0, d)], objs))
+            yield dict(score={"parts": parts}, tag="voicemix unvoiced=%r d=%d assign=%s" % (u0, d, assign))
+
+
+LONGTIE_METERS = [(2, 4), (3, 4), (4, 4), (5, 4), (3, 8), (5, 8), (6, 8), (7, 8), (9, 8)]
+LONGTIE_METERS_MORE = [(6, 4), (7, 4), (2, 2), (11, 8), (12, 8), (5, 16)]
+
+
+def gen_longtie(meters=LONGTIE_METERS, mults=(1,), far_ends="full", pickups=(False,)):
+    """one note held over at least two barlines (so that at least one whole measure lies inside it) in every
+    metre of `meters`: every start on a beat of the first complete measure x every end on a beat of the third
+    measure (+ the end of the fourth measure, or every beat of the fourth measure with far_ends='all'), written
+    (a) as a chain of pieces tied at every barline, (b) as one untied note.  A note of the same pitch touches
+    the end of the held note (when it does not end on a barline), a second voice marks every measure start.
+    Divisions: the smallest value that makes the beat integral, times `mults`; optional one-beat pickup."""
+    for beats, bt in meters:
+        for mult in mults:
+            d0 = 1
+            while (4 * d0) % bt:
+                d0 *= 2
+            d = d0 * mult
+            beat = 4 * d // bt
+            bar = beats * beat
+            for pickup in pickups:
+                p = beat if pickup else 0
+                for s in range(beats):
+                    ends = [(2, k) for k in range(1, beats + 1)]
+                    ends += [(3, k) for k in range(1, beats + 1)] if far_ends == "all" else [(3, beats)]
+                    for mi, k in ends:
+                        for seg in ("tied", "single"):
+                            nm = mi + 1
+                            ms = ([(0, p)] if p else []) + [(p + j * bar, p + (j + 1) * bar) for j in range(nm)]
+                            objs = [ts(0, beats, bt)]
+                            objs += [measure(j + (0 if p else 1), a, b) for j, (a, b) in enumerate(ms)]
+                            objs += [ks(0, 1, "major"), tempo(0, 72, "q")]
+                            start = p + s * beat
+                            end = p + mi * bar + k * beat
+                            if seg == "single":
+                                objs.append(note("h0", start, end, 48, 1))
+                            else:
+                                cuts = [start] + [p + j * bar for j in range(1, nm) if start < p + j * bar < end] + [end]
+                                for j in range(len(cuts) - 1):
+                                    objs.append(note("h%d" % j, cuts[j], cuts[j + 1], 48, 1,
+                                                     "h%d" % (j + 1) if j + 2 < len(cuts) else None))
+                            if start > 0:
+                                objs.append(note("pre", 0, start, 55, 1))
+                            if end < ms[-1][1]:
+                                # same pitch, touching the end of the held note: must stay a note of its own
+                                objs.append(note("post", end, ms[-1][1], 48, 1))
+                            for j, (a, b) in enumerate(ms):
+                                objs.append(note("f%d" % j, a, a + beat if a + beat <= b else b, 64 + j, 2))
+                            yield dict(score={"parts": [part("P1", [(0, d)], objs)]},
+                                       tag="longtie %d/%d d=%d pickup=%s start=%d end=m%d+%d %s" % (
+                                           beats, bt, d, pickup, s, mi + 1, k, seg))
 
 
 DIVCHANGE_VALUES = (1, 2, 3, 4, 6, 12)
